@@ -149,19 +149,6 @@ def cell_vars(prog):
     return sorted({s["v"] for s in walk(prog) if s["t"] == "cread"})
 
 
-def vars_of(prog):
-    vs = set()
-    for s in walk(prog):
-        if s["v"]:
-            vs.add(s["v"])
-        if s["r"]:
-            vs.add(s["r"])
-        for h in s["hs"]:
-            if h["v"]:
-                vs.add(h["v"])
-    return sorted(vs)
-
-
 def binders(prog, v):
     """kinds of statements that bind v"""
     out = set()
